@@ -70,6 +70,22 @@ where
                 }
                 crate::api::check_flags(&ViaFormatter(p), &t, &format!("[{}] serialised into a fmt::Formatter", I::NAME))?;
             }
+            // `Deserialize::deserialize_in_place` over a value that already holds something else in every
+            // component: afterwards it is the new PURL, nothing of the old one is left
+            if let Ok(Ok(old)) = parse::<I>("pkg:npm/%40old-scope/old-name@0.1?arch=x86&old=1#old/sub") {
+                let mut place = old;
+                let mut de = serde_json::Deserializer::from_str(&ser);
+                let r = guard(|| {
+                    let r = <GenericPurl<I::T> as Deserialize>::deserialize_in_place(&mut de, &mut place);
+                    (r.map_err(|e| e.to_string()), place)
+                })
+                .map_err(|m| format!("[{}] deserialize_in_place panicked: {m}", I::NAME))?;
+                match r {
+                    (Ok(()), now) if now == *p => {},
+                    (Ok(()), now) => return Err(format!("[{}] deserialize_in_place of {ser} over another value gives {:?}, expected {:?}", I::NAME, observe(&now), observe(p))),
+                    (Err(e), _) => return Err(format!("[{}] deserialize_in_place of {ser} fails: {e}", I::NAME)),
+                }
+            }
             // JSON round trip
             match serde_json::from_str::<GenericPurl<I::T>>(&ser) {
                 Ok(q) if q == *p => {},
